@@ -275,6 +275,7 @@ def explore(system, tier='quick', seed=0, workers=None, log=print):
     global _SYS, _TIER
     t0 = time.time()
     workers = workers or int(os.environ.get('VERIF_WORKERS', '0')) or min(16, os.cpu_count() or 1)
+    system.tier, system.seed = tier, seed     # visible to actions()/step() (fork()ed workers inherit them)
     system.warm()
     configs = list(system.configs(tier, seed))
     depth = system.depth(tier)
